@@ -34,6 +34,8 @@ function that keeps them; normaliser kinds from path facts with converting helpe
 Round 7: includes the compiler rule of C09 (i'); exactly-one-of count / until decided by a truth
 table; the raw conditions may be kept in one attribute each; truth conversion three-valued.
 Round 8: mode / strategy pairings that _compile cannot produce are dropped.
+Round 9: stand-in callables for a control that was not declared are another encoding of the
+modes: no verdict.
 """
 import ast
 
